@@ -72,6 +72,8 @@ type ContractSet struct {
 	// protected ghost components change only through contracts that name them
 	// (a whole-heap havoc keeps them): assumption A-FSGHOST
 	Protected map[string]bool
+	// ghost sets that are empty at every freshly allocated reference
+	FreshFalse map[string]bool
 }
 
 type Macro struct {
@@ -82,7 +84,7 @@ type Macro struct {
 }
 
 func newContractSet() *ContractSet {
-	return &ContractSet{ByFunc: map[string]*Contract{}, Field: map[string]*Contract{}, Ghost: map[string]string{}, Macros: map[string]*Macro{}, ConstGlobals: map[string]bool{}, Protected: map[string]bool{}}
+	return &ContractSet{ByFunc: map[string]*Contract{}, Field: map[string]*Contract{}, Ghost: map[string]string{}, Macros: map[string]*Macro{}, ConstGlobals: map[string]bool{}, Protected: map[string]bool{}, FreshFalse: map[string]bool{}}
 }
 
 var reKind = regexp.MustCompile(`^(requires|ensures|modifies|decreases|invariant|assume|let|cover|allocates|alloc|use|postuse)(\[[A-Za-z0-9, ]+\])?(\([A-Za-z0-9_.\-]+\))?\s+(.*)$`)
@@ -186,6 +188,10 @@ func (cs *ContractSet) ParseFile(path string, pkg string, external bool) error {
 				return fmt.Errorf("%s:%d: bad ghost decl", path, ln)
 			}
 			so := strings.TrimSpace(rest[i:])
+			if strings.HasSuffix(so, " freshfalse") {
+				so = strings.TrimSpace(strings.TrimSuffix(so, " freshfalse"))
+				cs.FreshFalse[rest[:i]] = true
+			}
 			if strings.HasSuffix(so, " protected") {
 				so = strings.TrimSpace(strings.TrimSuffix(so, " protected"))
 				cs.Protected[rest[:i]] = true
